@@ -875,6 +875,11 @@ remove is a private method called by [Stack.Remove].
 */
 func (r *stack) remove(idx int) (slice any, ok bool) {
 
+	// the lookup below must see the same content
+	// as the removal itself: lock first.
+	r.lock()
+	defer r.unlock()
+
 	var found bool
 	var index int
 	if slice, index, found = r.index(idx); found {
@@ -888,9 +893,6 @@ func (r *stack) remove(idx int) (slice any, ok bool) {
 
 		var R stack = make(stack, 0)
 		R = append(R, cfg)
-
-		r.lock()
-		defer r.unlock()
 
 		// Gather what we want to keep.
 		for i := 1; i < r.len(); i++ {
